@@ -638,3 +638,14 @@ func orDefault(s, d string) string {
 	}
 	return s
 }
+
+// countStatus: number of obligations of the rule with the given status so far.
+func (c *Ctx) countStatus(rule string, st Status) int {
+	n := 0
+	for _, o := range c.obs {
+		if o.Rule == rule && o.Status == st {
+			n++
+		}
+	}
+	return n
+}
